@@ -1,0 +1,125 @@
+//go:build verif
+// +build verif
+
+// Verification hook H5 (download-queue part). Compiled only with `-tags verif`; the shipped
+// binary never contains this file. It adds no behaviour: it only makes the unexported download
+// queue and peer bookkeeping nameable and constructible from the deterministic simulator
+// (/verif/sim/worlds/dlqworld), which drives the REAL queue code the way fetchParts /
+// processHeaders / processFullSyncContent do.
+//
+// The queue's methods (Prepare, Schedule, ReserveBodies, DeliverBodies, ExpireBodies,
+// CancelBodies, Revoke, Results, PendingBlocks, InFlightBlocks, ShouldThrottleBlocks, Idle,
+// Reset, Close, ... and the receipt twins) and the peerConnection methods (FetchBodies,
+// SetBodiesIdle, BlockCapacity, MarkLacking, Lacks, Reset, ...) are already exported methods
+// of unexported types; the aliases below are all that is needed to call them.
+
+package downloader
+
+import (
+	"sync/atomic"
+
+	"github.com/youchainhq/go-youchain/common"
+	"github.com/youchainhq/go-youchain/logging"
+)
+
+type (
+	// SimQueue is the real download queue.
+	SimQueue = queue
+	// SimPeerConn is the real per-peer download bookkeeping (idle flags, throughput, lacking set).
+	SimPeerConn = peerConnection
+	// SimFetchRequest is the real in-flight request record (Peer, Headers, Time).
+	SimFetchRequest = fetchRequest
+	// SimFetchResult is the real result record handed to the importer (Header, Transactions, Receipts).
+	SimFetchResult = fetchResult
+)
+
+// The sentinel errors fetchParts (downloader.go:1032,1038) branches on.
+var (
+	SimErrInvalidChain     = errInvalidChain
+	SimErrStaleDelivery    = errStaleDelivery
+	SimErrNoFetchesPending = errNoFetchesPending
+)
+
+// NewSimQueue returns newQueue().
+func NewSimQueue() *SimQueue { return newQueue() }
+
+// NewSimPeerConn returns newPeerConnection(id, peer, logger) exactly as RegisterPeer builds it
+// (downloader.go:1990).
+func NewSimPeerConn(id string, peer Peer) *SimPeerConn {
+	return newPeerConnection(id, peer, logging.New("peer", id))
+}
+
+// SimPeerID returns the peer's id.
+func SimPeerID(p *SimPeerConn) string { return p.id }
+
+// SimPeerBodyIdle / SimPeerReceiptIdle read the flags PeerSet.BodyIdlePeers / ReceiptIdlePeers
+// test (peer_set.go:166,180).
+func SimPeerBodyIdle(p *SimPeerConn) bool    { return atomic.LoadInt32(&p.blockIdle) == 0 }
+func SimPeerReceiptIdle(p *SimPeerConn) bool { return atomic.LoadInt32(&p.receiptIdle) == 0 }
+
+// SimQueueLimits sets the package-level tuning variables of the result cache (queue.go:36,37 and
+// downloader.go:46) and returns the previous values. blockCacheItems is read by newQueue and
+// Reset only, so it must be set before the queue is built.
+func SimQueueLimits(items, memory, maxResults int) (oldItems, oldMemory, oldMaxResults int) {
+	oldItems, oldMemory, oldMaxResults = blockCacheItems, blockCacheMemory, maxResultsProcess
+	blockCacheItems, blockCacheMemory, maxResultsProcess = items, memory, maxResults
+	return
+}
+
+// SimQueueCensus is a read-only census of the pools of one download kind: size of the task
+// priority queue, of the task pool map, number of in-flight requests and of headers they still
+// hold, size of the done pool. Used for the "is any wanted header in no pool?" diagnosis.
+func SimQueueCensus(q *SimQueue, receipts bool) (taskQueue, taskPool, pendRequests, pendHeaders, done int) {
+	q.lock.Lock()
+	defer q.lock.Unlock()
+	tq, tp, pp, dp := q.blockTaskQueue, q.blockTaskPool, q.blockPendPool, q.blockDonePool
+	if receipts {
+		tq, tp, pp, dp = q.receiptTaskQueue, q.receiptTaskPool, q.receiptPendPool, q.receiptDonePool
+	}
+	for _, req := range pp {
+		for _, h := range req.Headers {
+			if h != nil {
+				pendHeaders++
+			}
+		}
+	}
+	return tq.Size(), len(tp), len(pp), pendHeaders, len(dp)
+}
+
+// SimQueueLocate reports, read-only, where one header hash currently is: in the task pool map,
+// in the in-flight request of which peer ("" = none), in the done pool.
+func SimQueueLocate(q *SimQueue, hash common.Hash, receipts bool) (inTaskPool bool, pendingPeer string, done bool) {
+	q.lock.Lock()
+	defer q.lock.Unlock()
+	tp, pp, dp := q.blockTaskPool, q.blockPendPool, q.blockDonePool
+	if receipts {
+		tp, pp, dp = q.receiptTaskPool, q.receiptPendPool, q.receiptDonePool
+	}
+	_, inTaskPool = tp[hash]
+	_, done = dp[hash]
+	for id, req := range pp {
+		for _, h := range req.Headers {
+			if h != nil && h.Hash() == hash {
+				pendingPeer = id
+			}
+		}
+	}
+	return
+}
+
+// SimQueueIsPending reports whether req is the request currently registered for its peer.
+func SimQueueIsPending(q *SimQueue, req *SimFetchRequest, receipts bool) bool {
+	q.lock.Lock()
+	defer q.lock.Unlock()
+	if receipts {
+		return q.receiptPendPool[req.Peer.id] == req
+	}
+	return q.blockPendPool[req.Peer.id] == req
+}
+
+// SimQueueWindow returns the result-cache length and the current result offset.
+func SimQueueWindow(q *SimQueue) (cacheLen int, offset uint64) {
+	q.lock.Lock()
+	defer q.lock.Unlock()
+	return len(q.resultCache), q.resultOffset
+}
